@@ -107,6 +107,8 @@ def run(ctx):
     # (M) every interleaving of the bounded programs; counter-models must fail (anti-vacuity of the invariants)
     vlib.tlc_mc(ctx, 'MC_Concurrent', 'MC_Concurrent', workers=8)
     vlib.tlc_mc(ctx, 'MC_Concurrent', 'MC_Concurrent_big', workers=12)
+    if not ctx.quick:
+        vlib.tlc_mc(ctx, 'MC_Concurrent', 'MC_Concurrent_huge', workers=12)
     for bad in ('publish-early', 'scratch', 'reentrant-lock'):
         vlib.tlc_mc(ctx, 'MC_Concurrent', 'MC_Concurrent_bad_' + bad, workers=4, expect_violation=True)
     # (G) schedules out of the model, enforced on real goroutines through the gate hook
